@@ -38,7 +38,7 @@ def run(tier, deadline):
     # results for regions of 2^n bytes in which every byte pair differs by x, x * 2^n a multiple of 2^32: a sum of differences wraps to zero, an or does not
     for v in (("prod",) if tier == "quick" else ("prod", "O2", "O3")):
         for fn in ("timingsafe_bcmp", "timingsafe_memcmp"):
-            for n in ((25, 26, 28) if tier == "quick" else (24, 25, 26, 27, 28, 32)): jobs.append((v, fn, n, 0, 1, 3))
+            for n in ((25, 26, 28) if tier == "quick" else (25, 26, 27, 28, 32)): jobs.append((v, fn, n, 0, 1, 3))      # x = 2^(32-n) has to be a byte value: n >= 25
     jobs.sort(key=lambda j: -j[2] if j[5] < 2 else -10**9)
     viol = {}; internal = []; samples = []; tot = {"traced": 0, "contents": 0}; per = {}; timed_out = []
     def one(j):
@@ -71,7 +71,7 @@ def run(tier, deadline):
     def confirm(vi):
         kv = dict(l.split("=", 1) for l in vi.replay_text.strip().splitlines()); return replay(kv, quiet=True) == 1
     cov = {"evaluations": tot["traced"], "distinct_nontrivial": max(2, tot["traced"] - 18 * len(variants)),
-           "rule": "results (no traces) for n = 2^31 + 4096 and 2^32 + 4096 with known object sizes and the only difference in the last page, both operand orders (quick: one size per function on prod; thorough: both sizes on prod and O2); results for regions of 2^n bytes, n in {25, 26, 28} (thorough: 24..28 and 32 on prod, O2, O3), in which every byte pair differs by x with x * 2^n a multiple of 2^32 (a sum of differences wraps to zero); for each build, function and n in 0..8: all 256^2 byte pairs for n=1, {00,01,7f,80,ff}^(2n) for n=2,3, {00,80,ff}^8 for n=4, first-difference-at-each-position families (3 byte orders x 3 suffix classes) for n=5..8 and for n in {16, 33} (thorough: 9, 12, 15, 16, 17, 31, 32, 33, 64); for long operands n in {4097} (thorough: 65, 100, 4096, 4097, 8200) the first difference at the borders of 16-, 64- and 4096-byte blocks, the middle and both ends (lite sets: -1, 0, 4095, 4096, n-1), two orders, equal or differing suffix; each call single-stepped (trap flag) with operands, library data and the call's own stack PROT_NONE so every data access is logged; oracle: result sign equals memcmp's and the hash of (instruction addresses, data addresses+direction) is identical for all contents of the same n; non-trivial = contents other than the all-equal reference",
+           "rule": "results (no traces) for n = 2^31 + 4096 and 2^32 + 4096 with known object sizes and the only difference in the last page, both operand orders (quick: one size per function on prod; thorough: both sizes on prod and O2); results for regions of 2^n bytes, n in {25, 26, 28} (thorough: 25..28 and 32 on prod, O2, O3), in which every byte pair differs by x with x * 2^n a multiple of 2^32 (a sum of differences wraps to zero); for each build, function and n in 0..8: all 256^2 byte pairs for n=1, {00,01,7f,80,ff}^(2n) for n=2,3, {00,80,ff}^8 for n=4, first-difference-at-each-position families (3 byte orders x 3 suffix classes) for n=5..8 and for n in {16, 33} (thorough: 9, 12, 15, 16, 17, 31, 32, 33, 64); for long operands n in {4097} (thorough: 65, 100, 4096, 4097, 8200) the first difference at the borders of 16-, 64- and 4096-byte blocks, the middle and both ends (lite sets: -1, 0, 4095, 4096, n-1), two orders, equal or differing suffix; each call single-stepped (trap flag) with operands, library data and the call's own stack PROT_NONE so every data access is logged; oracle: result sign equals memcmp's and the hash of (instruction addresses, data addresses+direction) is identical for all contents of the same n; non-trivial = contents other than the all-equal reference",
            "samples": [{"build/fn/n": k, **v} for k, v in list(sorted(per.items()))[:12]],
            "per_build_fn_n": per, "builds": variants, "jobs_timed_out": len(timed_out)}
     assumptions = ["x86-64 trap flag delivers SIGTRAP after every instruction; page protection faults on every data access to the protected regions",
